@@ -185,20 +185,24 @@ def asked_possible(st, ms, idx):
     return None
 
 
+def _asked_norm(st, ms, rs):
+    """provably empty ranges carry no information (and would only blur the loop-head joins)"""
+    z = st.zone
+    ms.asked = tuple((lo, hi) for lo, hi in rs if not z.entails_le(hi, lo))[-2:]
+
+
 def asked_add(st, ms, idx):
     z = st.zone
     rs = list(ms.asked or ())
     for n, (lo, hi) in enumerate(rs):
         if z.entails_eq(idx, hi):
             rs[n] = (lo, plus(st, idx, 1))
-            ms.asked = tuple(rs)
-            return
-        if z.entails_le(hi, lo):
-            rs[n] = (idx, plus(st, idx, 1))
-            ms.asked = tuple(rs)
-            return
+            return _asked_norm(st, ms, rs)
+        if z.entails_eq(lo, idx, 1):
+            rs[n] = (idx, hi)           # a pass from the back
+            return _asked_norm(st, ms, rs)
     rs.append((idx, plus(st, idx, 1)))
-    ms.asked = tuple(rs[-2:])
+    _asked_norm(st, ms, rs)
 
 
 def asked_remove(st, ms, idx):
@@ -213,9 +217,8 @@ def asked_remove(st, ms, idx):
             rs.append((lo, idx))        # (first: keeps the lower end, and with it the loop invariant lo == const)
         elif z.entails_eq(idx, lo):
             rs.append((plus(st, idx, 1), hi))
-        else:
-            rs.append((0, 0))       # cannot tell where inside the range: forget the range
-    ms.asked = tuple(rs)
+        # else: cannot tell where inside the range: forget the range
+    _asked_norm(st, ms, rs)
 
 
 def kill(st, mid, idx):
